@@ -80,6 +80,8 @@ MUTANTS = [
     ("reader takes the first column for every field",
      "AegeanTools/catalogs.py",
      "                val = row[param]", "                val = row[0]", "C18-R4"),
+    ("components written sorted (seed C18d)", "AegeanTools/catalogs.py",
+     "        for name in catalog[0].names:", "        catalog = sorted(catalog)\n        for name in catalog[0].names:", "C18-R8"),
 ]
 TWINS = [
     ("double precision errors", "AegeanTools/catalogs.py",
@@ -482,6 +484,7 @@ def run(ctx):
                   ext, node=sc.node)
 
     r7(ctx, prog)
+    r8_order(ctx, prog)
 
 
 # numpy / python scalar types a source attribute can hold, with the classes
@@ -649,3 +652,46 @@ def _dispatch(ctx, prog, outer, inner, table):
                   "type or precision from the one written" %
                   (ty, got, aff(got), WANT[ty]), node=st.node)
     return n
+
+
+ORDER_CHANGING = {"sorted", "reversed", "set", "frozenset", "np.sort",
+                  "np.unique", "numpy.sort", "numpy.unique", "random.shuffle",
+                  "np.random.shuffle", "np.random.permutation"}
+ORDER_METHODS = {"sort", "reverse"}
+
+
+def r8_order(ctx, prog):
+    ctx.rule("C18-R8", "row order: on the way from the catalogue to a "
+             "readable table (classify_catalog, write_catalog and its writer, "
+             "writeFITSTable, writeVOTable, writeDB) and back "
+             "(load_table, table_to_source_list) nothing sorts, reverses, "
+             "de-duplicates or shuffles the sources -- the annotation / "
+             "region writers, which cannot be read back, may")
+    n = 0
+    for short in ("models.classify_catalog", "catalogs.write_catalog",
+                  "catalogs.write_catalog.writer", "catalogs.writeFITSTable",
+                  "catalogs.writeVOTable", "catalogs.writeDB",
+                  "catalogs.load_table", "catalogs.table_to_source_list",
+                  "catalogs.write_table", "catalogs.save_catalog"):
+        if not prog.has_func(short):
+            continue
+        fi = prog.func(short)
+        n += 1
+        bad = []
+        for c in walk_no_nested(fi.node):
+            if isinstance(c, ast.Call) and (
+                    norm(c.func) in ORDER_CHANGING or
+                    isinstance(c.func, ast.Attribute) and
+                    c.func.attr in ORDER_METHODS):
+                bad.append(c)
+            if isinstance(c, ast.Subscript) and isinstance(c.slice, ast.Slice) \
+                    and c.slice.step is not None and not (
+                        isinstance(c.slice.step, ast.Constant) and
+                        c.slice.step.value == 1):
+                bad.append(c)
+        ctx.check("C18-R8", fi, "no reordering in " + fi.short, not bad,
+                  "%s changes the order (or multiplicity) of the rows: the "
+                  "table read back no longer lists the sources in the order "
+                  "of the catalogue" % [norm(b, 50) for b in bad[:3]],
+                  node=bad[0] if bad else fi.node)
+    ctx.floor("C18-R8", n, 6, "functions on the catalogue <-> table path")
